@@ -1529,6 +1529,9 @@ where
             let start = start_position + (i * chunk_size) as u64;
             let end = start + chunk.len() as u64;
 
+            #[cfg(zcash_librustzcash_verif)]
+            crate::verif_hooks::event("subtree_chunk", i as u64, chunk.len() as u64);
+
             shardtree::LocatedTree::from_iter(
                 start..end,
                 SHARD_HEIGHT.into(),
